@@ -29,5 +29,6 @@ RULES = [
     ("C07.gcskel", lambda c, r: __import__("sa.rules.lfht2", fromlist=["x"]).rule_gcskel(c, r, "C07.gcskel")),
     ("C07.destroy2", lambda c, r: __import__("sa.rules.lfht2", fromlist=["x"]).rule_destroy2(c, r, "C07.destroy2")),
     ("C07.urcuref", lambda c, r: __import__("sa.rules.c04", fromlist=["x"]).rule_urcuref(c, r, "C07.urcuref")),   # the work queue completion (flush before destroy) is reference counted
+    ("C07.mmcases", lambda c, r: __import__("sa.rules.lfht2", fromlist=["x"]).rule_mm_cases(c, r, "C07.mmcases")),
 ]
 FLOORS = {}
